@@ -758,10 +758,13 @@ func (c *Ctx) ruleSitesPKGO() {
 		}
 		var detail string
 		var keyArgs []string
+		var keyVals []ssa.Value
 		detail = "no positive " + f.hasAny + " on an index built by BuildPackageOnlyIndex"
 		mem := si.take("has-any", c.indexCallPred(f.hasAny, "indexing.BuildPackageOnlyIndex", true, func(call *ssa.Call) (bool, string) {
+			keyArgs, keyVals = nil, nil
 			for _, a := range call.Call.Args[1:] {
 				keyArgs = append(keyArgs, P.Desc(a))
+				keyVals = append(keyVals, a)
 			}
 			return true, ""
 		}, &detail))
@@ -813,14 +816,15 @@ func (c *Ctx) ruleSitesPKGO() {
 				if !ok {
 					return false
 				}
-				d := P.Desc(lk.Index)
-				for _, k := range keyArgs {
-					if !strings.Contains(d, k) {
+				for _, kv := range keyVals {
+					want := P.Desc(kv)
+					found, _ := P.derives(lk.Index, func(v ssa.Value) bool { return v == kv || P.Desc(v) == want }, 8)
+					if !found {
 						detail = "PKGO01 dedup key does not contain both the package path and the type name"
 						return false
 					}
 				}
-				return true
+				return len(keyVals) == 2
 			})
 			if detail == "" {
 				detail = "no once-per-file dedup guard on the PKGO01 path"
